@@ -248,6 +248,57 @@ def flag_prices_set():
     raise ExtractError("iterators.cc posts_commodities_iterator::reset container not recognised: " + ty)
 
 
+def comparator_of(entry_type):
+    """the comparator type name of a `compared|map<K, V, C>` / `set<K, C>` entry."""
+    m = re.match(r"(?:multi)?(map|set)<(.*)>$", entry_type)
+    need(m, "container type not understood: " + entry_type)
+    args, _ = template_args("<" + m.group(2) + ">", 0)
+    idx = 2 if m.group(1) == "map" else 1
+    return args[idx] if len(args) > idx else ""
+
+
+def comparators():
+    """For every ORDERED container keyed by a pointer that names a comparator: the comparator's operator() body and
+    its classification.  A pointer-keyed map is only safe when the comparator never falls back to the pointer:
+      name-only         no relational comparison of the two bare parameters (nor of their addresses)
+      pointer-fallback  `lhs < rhs` (or > <= >=, std::less, &lhs < &rhs) on the parameters themselves
+      unknown           the comparator's definition was not found in src/ (e.g. a std:: functor on pointers)
+    -> [("file:container", class, "comparator|normalised body")]"""
+    files = {}
+    for pth in sorted(glob.glob(os.path.join(SRC, "*.h")) + glob.glob(os.path.join(SRC, "*.cc"))):
+        with open(pth, encoding="utf-8", errors="replace") as f:
+            files[os.path.basename(pth)] = strip_comments(f.read())
+    out = []
+    for key, val, _line in containers():
+        cls, ty = val.split("|", 1)
+        if cls != "compared":
+            continue
+        cname = comparator_of(ty)
+        base = cname.split("::")[-1]
+        body, params = None, None
+        for fn, text in files.items():
+            m = re.search(r"\b(?:struct|class)\s+" + re.escape(base) + r"\b[^;{]*\{", text)
+            if not m:
+                continue
+            sbody = function_body(text, r"\b(?:struct|class)\s+" + re.escape(base) + r"\b[^;{]*\{")
+            mo = re.search(r"bool\s+operator\s*\(\)\s*\(([^)]*)\)\s*const\s*\{", sbody)
+            if not mo:
+                continue
+            body = norm_ws(function_body(sbody, r"bool\s+operator\s*\(\)\s*\(([^)]*)\)\s*const\s*\{"))
+            params = [re.findall(r"[A-Za-z_]\w*", a)[-1] for a in mo.group(1).split(",")]
+            break
+        if body is None or len(params) != 2:
+            out.append((key, "unknown", "%s|" % cname))
+            continue
+        a, b = map(re.escape, params)
+        ptr = re.search(r"(?<![\w.>])&?\s*(%s|%s)\s*(<=|>=|<|>)\s*&?\s*(%s|%s)(?![\w(]|\s*(->|\.))" % (a, b, a, b), body) \
+            or re.search(r"std::(less|greater)", body) \
+            or re.search(r"(reinterpret_cast|uintptr_t|static_cast<\s*(const\s+)?void)", body)
+        out.append((key, "pointer-fallback" if ptr else "name-only", "%s|%s" % (cname, body)))
+    need(out, "no pointer-keyed container with a comparator found (output.h report maps expected)")
+    return out
+
+
 def presence_returns():
     """commodity.cc compare_by_commodity: for each lot detail X the two `one side has it` branches
     `if (! aleftcomm.details.X && arightcomm.details.X) … return A;` / `if (aleftcomm.details.X && ! arightcomm.details.X) … return B;`
@@ -292,6 +343,11 @@ def gen_order_sources():
           "def collapseTotalsOrder : String := %s" % lean_str(flag_totals_map()), "",
           "/-- iterators.cc posts_commodities_iterator::reset: \"address\" (std::set<commodity_t*>), \"name\" or \"insertion\". -/",
           "def pricesSetOrder : String := %s" % lean_str(flag_prices_set()), "",
+          "/-- (\"file:container\", class, \"comparator|operator() body\") for every ordered container keyed by a pointer that names a",
+          "    comparator (class: name-only | pointer-fallback | unknown).  The flagged containers are included. -/",
+          "def comparators : List (String × String × String) := [",
+          ",\n".join("  (%s, %s, %s)" % (lean_str(k), lean_str(c), lean_str(v)) for k, c, v in comparators()),
+          "]", "",
           "/-- commodity.cc compare_by_commodity: (detail, result when only the RIGHT lot has it, result when only the LEFT lot has it). -/",
           "def lotPresenceReturns : List (String × Int × Int) := ["
           + ", ".join("(%s, %d, %d)" % (lean_str(k), a, b) for k, (a, b) in presence_returns().items()) + "]", "",
